@@ -176,6 +176,7 @@ def expected_end(script, tol, maxit, m=1):
 # Machine
 # ======================================================================
 class C05(Machine):
+    chunk = 16      # runs per forked process (see runner._child)
     pid = 'C05'
     rule = ("one run = (shape, cycle, semicoarsening pattern, line-relaxation "
             "pattern, clevel, smoothing counts, maxit, stand-alone or Krylov-"
